@@ -372,7 +372,11 @@ impl Ctx {
             for m in &merr {
                 eprintln!("MACHINERY: {}", m);
             }
-            return 2;
+            // a violation that was found (and has its replay file) stays a verdict even when
+            // the machinery gave up on something else afterwards; without one the run is void
+            if violations.is_empty() {
+                return 2;
+            }
         }
         if violations.is_empty() {
             0
